@@ -24,6 +24,27 @@ import numpy as np
 # --------------------------------------------------------------------------- driver line
 
 
+# constant values travel to the Lean driver as integers in units of 1e-6; tolerances as exact fractions
+SCALE = 10**6
+TOLS = {1e-5: (1, 10**5), 1e-8: (1, 10**8), 1e-2: (1, 10**2), 1e-3: (1, 10**3), 0.0: (0, 1)}
+DEFAULT_REL, DEFAULT_ABS = 1e-5, 1e-8
+
+
+def _sc(v) -> int:
+    return int(round(v * SCALE))
+
+
+def _tol(t) -> str:
+    if t in TOLS:
+        return f"{TOLS[t][0]}/{TOLS[t][1]}"
+    return f"?{t!r}"
+
+
+def k_tols(v):
+    """(rel_tol, abs_tol) of a ["K", id, value(, rel, abs)] pattern"""
+    return (v[3], v[4]) if len(v) >= 5 else (DEFAULT_REL, DEFAULT_ABS)
+
+
 def _n(x):
     return "_" if x is None else str(x)
 
@@ -65,9 +86,10 @@ def enc_vpat(v, pattern) -> list[str]:
     if k == "A":
         return ["A"]
     if k == "K":
+        rel, ab = k_tols(v)
         if isinstance(v[2], list):
-            return [f"K:{v[1]}:l:{_ints(v[2])}"]
-        return [f"K:{v[1]}:s:{int(v[2])}"]
+            return [f"K:{v[1]}:l:{','.join(str(_sc(i)) for i in v[2])}:{_tol(rel)}:{_tol(ab)}"]
+        return [f"K:{v[1]}:s:{_sc(v[2])}:{_tol(rel)}:{_tol(ab)}"]
     if k == "O":
         return [f"O:{v[1]}:{v[2]}"]
     if k == "OR":
@@ -145,7 +167,7 @@ def enc_graph(g) -> list[str]:
     t += [str(o) for o in g["outputs"]]
     t.append(str(len(g["consts"])))
     for vid, shape, data in g["consts"]:
-        t += [str(vid), ",".join(map(str, shape)) or "-", _ints(data) or "_"]
+        t += [str(vid), ",".join(map(str, shape)) or "-", ",".join(str(_sc(i)) for i in data) or "_"]
     t.append(str(len(g.get("foreign", []))))
     t += [str(v) for v in g.get("foreign", [])]
     t.append(str(len(g.get("ext", []))))
@@ -210,7 +232,8 @@ def build_pattern(p) -> BuiltPattern:
             o = const_fn(v[2])  # a callable input: _to_value_pattern makes ValuePattern(None, check=f)
             return o  # a fresh ValuePattern object per use (ids are unique by construction)
         elif k == "K":
-            o = P.Constant(v[2])
+            rel, ab = k_tols(v)
+            o = P.Constant(v[2], rel_tol=rel, abs_tol=ab)
         elif k == "OR":
             _, vid, name, tagvar, tags, alts = v
             o = P.OrValue([mk(a) for a in alts], name=name, tag_var=tagvar, tag_values=tags)
@@ -251,6 +274,11 @@ def build_pattern(p) -> BuiltPattern:
     cond = p["cond"]
     pat = P.Pattern(gp, (lambda context, **kw: cond))
     return BuiltPattern(gp, pat, node_index)
+
+
+def _np_const(data, shape):
+    dt = np.int64 if all(float(x).is_integer() for x in data) else np.float64
+    return np.array(data, dtype=dt).reshape(shape)
 
 
 class BuiltGraph:
@@ -296,7 +324,7 @@ def build_graph(g) -> BuiltGraph:
         values[vid] = v
         if vid in consts:
             shape, data = consts[vid]
-            v.const_value = ir.tensor(np.array(data, dtype=np.int64).reshape(shape), name=f"v{vid}")
+            v.const_value = ir.tensor(_np_const(data, shape), name=f"v{vid}")
         if vid in foreign:
             continue
         if vid in consts:
@@ -333,7 +361,7 @@ def build_graph(g) -> BuiltGraph:
             values[vid] = ov
             if vid in consts:
                 shape, data = consts[vid]
-                ov.const_value = ir.tensor(np.array(data, dtype=np.int64).reshape(shape), name=f"v{vid}")
+                ov.const_value = ir.tensor(_np_const(data, shape), name=f"v{vid}")
         nodes.append(node)
     graph = ir.Graph(
         graph_inputs,
@@ -412,6 +440,29 @@ def run_real(bp: BuiltPattern, bg: BuiltGraph, root: int, rm: bool) -> str:
     return f"on={on} " + show_match(m, bg)
 
 
+def show_consts(gp) -> str:
+    """the Constant patterns of a GraphPattern: per node, in input order (through BacktrackingOr alternatives)"""
+    from onnxscript.rewriter import _pattern_ir as PI
+
+    def walk(v, out):
+        if isinstance(v, PI.Constant):
+            val = v._value
+            head = ("l" + ",".join(str(_sc(i)) for i in val)) if isinstance(val, list) else f"s{_sc(val)}"
+            out.append(f"{head}~{_tol(v._rel_tol)}~{_tol(v._abs_tol)}")
+        elif isinstance(v, PI.BacktrackingOr):
+            for a in v._values:
+                walk(a, out)
+
+    parts = []
+    for n in gp:
+        out: list = []
+        for i in n.inputs:
+            if i is not None:
+                walk(i, out)
+        parts.append(",".join(out))
+    return ";".join(parts)
+
+
 def run_real_commute(bp: BuiltPattern, bg: BuiltGraph, root: int, rm: bool, cond: bool) -> str:
     """`GraphPattern.commute()`, then every variant matched with a fresh default matcher."""
     from onnxscript.rewriter import pattern as P
@@ -433,10 +484,64 @@ def run_real_commute(bp: BuiltPattern, bg: BuiltGraph, root: int, rm: bool, cond
         pat = P.Pattern(gp, (lambda context, **kw: cond))
         try:
             m = pat.match(bg.model, bg.graph, bg.nodes[root], check_nodes_are_removable=rm)
-            outs.append(show_match(m, bg))
+            outs.append(show_match(m, bg) + " #K " + show_consts(gp))
         except Exception as e:  # noqa: BLE001
-            outs.append(f"EXC:{type(e).__name__}")
+            outs.append(f"EXC:{type(e).__name__}" + " #K " + show_consts(gp))
     return f"K{len(variants)}" + "".join(" || " + o for o in outs)
+
+
+COMMUTATIVE_OPS = {"Add", "Mul", "And", "Or", "Xor", "BitwiseAnd", "BitwiseOr", "BitwiseXor", "Equal", "Max", "Mean",
+                   "Min", "Sum"}
+
+
+def commute_masks(p):
+    """the swap masks in itertools.product order (the property's own reading of "commutative operators")"""
+    import itertools
+
+    space = []
+    for n in p["nodes"]:
+        ident = op_identifier(n)
+        space.append([False, True] if ident is not None and ident[0] == "" and ident[1] in COMMUTATIVE_OPS else [False])
+    return list(itertools.product(*space))
+
+
+def swapped_pattern(p, mask):
+    """the pattern with the operands of the masked (binary) nodes swapped; object ids are kept"""
+    import copy
+
+    q = copy.deepcopy(p)
+    for n, b in zip(q["nodes"], mask):
+        if b:
+            if len(n["inputs"]) != 2:
+                return None
+            n["inputs"] = [n["inputs"][1], n["inputs"][0]]
+    return q
+
+
+def commute_oracle_applies(p) -> bool:
+    """single output node, no unnamed object used twice (clone un-shares those), few variants"""
+    from collections import Counter
+
+    outs = p["outputs"]
+    if not outs or any(o[0] != "O" for o in outs) or len({o[1] for o in outs}) != 1:
+        return False
+    cnt: Counter = Counter()
+
+    def rec(v):
+        if v[0] in ("K", "OR", "W") or (v[0] == "V" and v[2] is None):
+            cnt[v[1]] += 1
+        if v[0] == "OR":
+            for a in v[5]:
+                rec(a)
+
+    for n in p["nodes"]:
+        for i in n["inputs"]:
+            if i is not None:
+                rec(i)
+    if any(c > 1 for c in cnt.values()):
+        return False
+    masks = commute_masks(p)
+    return 1 < len(masks) <= 8 and all(swapped_pattern(p, m) is not None for m in masks)
 
 
 def dumps(case) -> str:
